@@ -66,8 +66,11 @@ def stub_fidelity():
     checked = 0
     for n_items in (0, 1, 3, 7, 16, 33):
         for procs in (1, 2, 4, 7):
+          for chunksize in (None, None, 0, 1, 3, 50):
             for fail_at in (None, 0, n_items // 2, n_items - 1):
                 if fail_at is not None and not (0 <= fail_at < n_items):
+                    continue
+                if chunksize is not None and procs not in (2, 7):
                     continue
                 seen_real, seen_sim = [], []
 
@@ -84,7 +87,7 @@ def stub_fidelity():
                     pool = pool_cls(procs)
                     try:
                         try:
-                            return ("ok", pool.map(make(seen), iter(range(n_items))))
+                            return ("ok", pool.map(make(seen), iter(range(n_items)), chunksize))
                         except Boom as e:
                             return ("boom", e.args)
                     finally:
@@ -97,7 +100,7 @@ def stub_fidelity():
                 with sched.Session({"strategy": "rtc"}, rng=random.Random(n_items * 100 + procs)):
                     s = outcome(sched.SimPool, seen_sim)
                 if r != s:
-                    raise AssertionError("stub fidelity: real %r vs sim %r (n=%d p=%d fail=%r)" % (r, s, n_items, procs, fail_at))
+                    raise AssertionError("stub fidelity: real %r vs sim %r (n=%d p=%d chunksize=%r fail=%r)" % (r, s, n_items, procs, chunksize, fail_at))
                 # chunk-abort semantics: the set of executed items is the same
                 if sorted(seen_real) != sorted(seen_sim):
                     raise AssertionError("stub fidelity: executed items differ: real %r sim %r (n=%d p=%d fail=%r)"
